@@ -1,7 +1,12 @@
 package main
 
 import (
+	"context"
 	"fmt"
+	"os"
+	"os/exec"
+	"path/filepath"
+	"sort"
 	"strings"
 	"time"
 
@@ -132,25 +137,36 @@ func c10Gen(r *RNG, malformed bool) c10Case {
 	// window: independent of the transaction date
 	start, _ := time.Parse("2006-01-02", c10DateStr(r))
 	var end time.Time
+	unit := map[string]int{"daily": 1, "weekly": 7, "monthly": 30, "quarterly": 91}[k.Interval]
+	// number of periods: mostly a handful, sometimes dozens, rarely hundreds (keeps the generated lists small on average)
+	np := r.Range(0, 14)
+	if r.Chance(1, 6) {
+		np = r.Range(15, 60)
+	}
+	if r.Chance(1, 40) {
+		np = r.Range(61, 400)
+	}
 	switch r.Intn(10) {
 	case 0:
 		end = start // a single day
 	case 1:
 		end = start.AddDate(0, 0, r.Range(1, 6)) // inside one week
-	case 2:
-		end = start.AddDate(0, r.Range(1, 12), 0).AddDate(0, 0, -1)
-	case 3:
-		end = start.AddDate(r.Range(1, 3), r.Intn(12), r.Intn(28)) // long
-	case 4:
-		end = time.Date(start.Year(), start.Month()+time.Month(r.Range(0, 5)), 1, 0, 0, 0, 0, time.UTC).AddDate(0, 0, r.Intn(3)-1)
+	case 2: // whole months
+		m := r.Range(1, 12)
+		if unit < 30 && np < 61 {
+			m = r.Range(1, 2)
+		}
+		end = start.AddDate(0, m, 0).AddDate(0, 0, -1)
+	case 3: // on unit borders: first/last days of months
+		end = time.Date(start.Year(), start.Month()+time.Month(r.Range(0, 3)), 1, 0, 0, 0, 0, time.UTC).AddDate(0, 0, r.Intn(3)-1)
 		if end.Before(start) {
 			end = start
 		}
 	default:
-		end = start.AddDate(0, 0, r.Range(0, 400))
-	}
-	if k.Interval == "daily" && end.Sub(start) > 400*24*time.Hour {
-		end = start.AddDate(0, 0, r.Range(0, 400))
+		end = start.AddDate(0, 0, np*unit+r.Intn(unit+1)-unit/2)
+		if end.Before(start) {
+			end = start
+		}
 	}
 	k.Start, k.End = start.Format("2006-01-02"), end.Format("2006-01-02")
 	if r.Chance(1, 25) {
@@ -288,6 +304,18 @@ func c10Run(text string) (im c10Impl) {
 		return
 	}
 	im.ParseOK = true
+	// a mutated digit in a date can make the window span centuries: such cases are outside the budget
+	// of the model driver (hundreds of thousands of transactions) and are skipped, counted by class
+	if !trx.Addons.Accrual.Empty() {
+		s0, e1 := time.Parse("2006-01-02", trx.Addons.Accrual.Start.Extract())
+		e0, e2 := time.Parse("2006-01-02", trx.Addons.Accrual.End.Extract())
+		unit := map[string]int{"daily": 1, "weekly": 7, "monthly": 28, "quarterly": 89}[trx.Addons.Accrual.Interval.Extract()]
+		if e1 == nil && e2 == nil && unit > 0 && int(e0.Sub(s0).Hours()/24)/unit*len(trx.Bookings) > 4000 {
+			im.ParseOK = false
+			im.Outcome = "window-too-large-skipped"
+			return
+		}
+	}
 	out, txs := c10Create(trx)
 	im.Outcome = out
 	if out == "ok" {
@@ -496,13 +524,86 @@ func c10Around(r *RNG, k c10Case) []c10Case {
 	return out
 }
 
+// c10PrintCase: the same expansion observed at the command level. `knut print` on a journal holding the
+// annotated transaction must print exactly the transactions the library call returns: its output is
+// parsed back (real parser, real Create) and compared as a sorted list.
+func (c *Ctx) c10PrintCase(i int, k c10Case) {
+	text := k.text()
+	im := c10Run(text)
+	if !im.ParseOK || im.BadDate || strings.HasPrefix(im.Outcome, "panic") {
+		return
+	}
+	c.Evals++
+	var jb strings.Builder
+	seen := map[string]bool{}
+	for _, b := range k.Bookings {
+		for _, a := range []string{b.Credit, b.Debit, k.Account} {
+			if a == k.Account && k.NoAccrue && a != b.Credit && a != b.Debit {
+				continue // the accrual account is not part of the journal
+			}
+			if !seen[a] {
+				seen[a] = true
+				fmt.Fprintf(&jb, "1900-01-01 open %s\n", a)
+			}
+		}
+	}
+	jb.WriteString("\n" + text)
+	os.MkdirAll(c.WorkDir, 0o755)
+	path := filepath.Join(c.WorkDir, "c10print.knut")
+	if err := os.WriteFile(path, []byte(jb.String()), 0o644); err != nil {
+		fatalf("%v", err)
+	}
+	in := map[string]any{"text": text, "journal": jb.String(), "cmd": "knut print " + path}
+	ctx, cancel := context.WithTimeout(context.Background(), 20*time.Second)
+	defer cancel()
+	cmd := exec.CommandContext(ctx, c.KnutBin, "print", path)
+	var stdout, stderr strings.Builder
+	cmd.Stdout, cmd.Stderr = &stdout, &stderr
+	err := cmd.Run()
+	if im.Outcome == "error" {
+		c.Monitor("print", i, "knut print rejects what Create rejects", in, err != nil || strings.Contains(stdout.String()+stderr.String(), "rror"), clipN(stdout.String()+stderr.String(), 300))
+		c.Class("c10/print/error")
+		return
+	}
+	if err != nil {
+		c.Compare("print", i, "print", in, "exit: "+err.Error()+" "+clipN(stderr.String(), 300), "ok")
+		return
+	}
+	// parse the printed journal back
+	p := parser.New(stdout.String(), "")
+	var printed []string
+	if err := p.Advance(); err == nil {
+		if f, err := p.ParseFile(); err == nil {
+			for j := range f.Directives {
+				if t, ok := f.Directives[j].Directive.(syntax.Transaction); ok {
+					if o, txs := c10Create(&t); o == "ok" {
+						for _, x := range txs {
+							printed = append(printed, c10ShowTx(x))
+						}
+					} else {
+						printed = append(printed, "create:"+o)
+					}
+				}
+			}
+		} else {
+			printed = append(printed, "unparseable output: "+err.Error())
+		}
+	}
+	want := append([]string(nil), im.Gen...)
+	sort.Strings(want)
+	sort.Strings(printed)
+	c.Compare("print", i, "print", in, c10Readable(printed), c10Readable(want))
+	// and the property itself on what the command printed (order-free part: balanced + conserved)
+	c.Class(fmt.Sprintf("c10/print/%s/gen%s", k.Interval, bucket(len(want))))
+}
+
 func runC10(c *Ctx) {
 	if !c.Replay || c.OnlyStr == "dec" {
-		runDecStream(c, c.N(3000, 60000))
+		runDecStream(c, c.N(3000, 40000))
 	}
 	bt := c.NewBatch()
 	defer bt.Flush()
-	if c.Replay && c.ReplayInput != nil && c.OnlyStr != "dec" {
+	if c.Replay && c.ReplayInput != nil && c.OnlyStr != "dec" && c.OnlyStr != "print" {
 		text, _ := c.ReplayInput["text"].(string)
 		stream, idx := c.OnlyStr, c.OnlyIndex
 		c.Replay = false
@@ -514,7 +615,7 @@ func runC10(c *Ctx) {
 		name      string
 		n         int
 		malformed bool
-	}{{"accrual", c.N(7000, 120000), false}, {"malformed", c.N(3000, 40000), true}} {
+	}{{"accrual", c.N(8000, 150000), false}, {"malformed", c.N(3000, 40000), true}} {
 		for i := 0; i < st.n; i++ {
 			if !c.Want(st.name, i) {
 				continue
@@ -528,6 +629,21 @@ func runC10(c *Ctx) {
 			if f.Kind == "disagree" && f.What == "c10" && f.Stream == st.name && len(gens) < 6 {
 				gens[fmt.Sprintf("%s/%d", st.name, f.Index)] = c10Gen(c.Rng(st.name, f.Index), st.malformed)
 			}
+		}
+	}
+	// ---- command level: knut print
+	if c.KnutBin != "" && c.WorkDir != "" {
+		np := c.N(250, 4000)
+		for i := 0; i < np; i++ {
+			if !c.Want("print", i) {
+				continue
+			}
+			r := c.Rng("print", i)
+			k := c10Gen(r, r.Chance(1, 12))
+			if k.Text != "" {
+				continue
+			}
+			c.c10PrintCase(i, k)
 		}
 	}
 	if len(gens) > 0 && !c.Replay {
